@@ -5,6 +5,8 @@
   bin/check selftest seeded [id ...]             sensitivity: every change under /verif/seeded (made by independent
                                                  sub-agents) must be reported by its property's quick check
   bin/check selftest mutants [id ...]            the same for the hand-written mutants under mystsim/mutants
+  bin/check selftest replays                     every recorded finding reproduces (same signature) on the tree just
+                                                 before its repair, and passes on the current tree
 
 A seeded change / mutant is applied to a scratch copy of /repo's package outside /repo and /verif (tmpfs), the
 check runs with MYSTSIM_REPO pointing at the copy, and the copy is removed. /repo is never touched.
@@ -111,6 +113,41 @@ def _sensitivity(root: str, argv: list[str]) -> int:
     return 2 if errors else (1 if missed else 0)
 
 
+def replays(argv: list[str]) -> int:
+    """Every recorded finding must (a) reproduce, with the recorded signature, on the tree just before its repair
+    and (b) pass on the current tree: a fixed finding suppresses nothing and would be reported again."""
+    with open(os.path.join(VERIF, "known_findings.json")) as f:
+        entries = json.load(f)["entries"]
+    bad = 0
+    for ent in entries:
+        files = ent.get("replays") or [ent["replay"]]
+        commit = ent.get("commit")
+        for rel in files:
+            path = os.path.join(VERIF, rel)
+            cmd = PROP_CMD[ent["property"]]
+            rc_now, text_now = _run_check(cmd, ["--replay", path], {})
+            ok_now = rc_now == 0 and "NOT-REPRODUCED" in text_now
+            ok_before = None
+            if commit:
+                scratch = _scratch()
+                try:
+                    ar = subprocess.run(["git", "-C", REPO, "archive", commit + "^", "myst_parser"], capture_output=True)
+                    if ar.returncode != 0:
+                        print(f"HARNESS-ERROR: git archive {commit}^ failed: {ar.stderr.decode()[-300:]}")
+                        return 2
+                    subprocess.run(["tar", "-x", "-C", scratch], input=ar.stdout, check=True)
+                    rc_b, text_b = _run_check(cmd, ["--replay", path], {"MYSTSIM_REPO": scratch})
+                    ok_before = rc_b == 1 and '"same_signature": true' in text_b
+                finally:
+                    shutil.rmtree(scratch, ignore_errors=True)
+            status = ("ok" if ok_now and ok_before is not False else "BAD")
+            bad += status == "BAD"
+            print(f"{os.path.basename(rel)}: before {commit[:7] if commit else '-'}: "
+                  f"{'reproduces with the recorded signature' if ok_before else 'DOES NOT REPRODUCE' if ok_before is False else 'n/a'}; "
+                  f"current tree: {'passes' if ok_now else 'DOES NOT PASS'}  [{status}]", flush=True)
+    return 1 if bad else 0
+
+
 def main(argv: list[str]) -> int:
     if not argv:
         print(__doc__)
@@ -118,6 +155,8 @@ def main(argv: list[str]) -> int:
     what, rest = argv[0], argv[1:]
     if what == "determinism":
         return determinism(rest)
+    if what == "replays":
+        return replays(rest)
     if what == "seeded":
         return _sensitivity(os.path.join(VERIF, "seeded"), rest)
     if what == "mutants":
